@@ -20,6 +20,10 @@ Correspondence K (Model/MeasureRun.v, differ inside Coq):
     the model's exact rationals within 1e-12 of a running magnitude bound (`uncertainties`
     computes in binary floats: this part is differential TESTING, labelled so).
 Oracles decide the property statement on pint alone (see ORACLES below); among them the
+one-object history oracle (reads of value / error / rel, in-place conversions ito / ito_base_units /
+ito_root_units / ito_reduced_units, refused conversions, in-place conversion of a RETURNED value, then
+re-reads: the accessors must report the object's current magnitude and units and agree with a fresh
+measurement converted out of place; the final reports also go to the model), the
 bare-operand oracle (a bare ufloat 0 +/- s against dimensioned Quantity / Quantity(ufloat) /
 Measurement for + - < <= > >= ==, both operand orders, must meet the outcome of the plain quantity
 with a plain number of the same zero-ness; the + / - cases also go to the model) and the
@@ -1112,6 +1116,129 @@ def oracle_bare(w, plan):
     return fails
 
 
+
+# ---------------------------------------------------------------------------- histories on ONE measurement object
+# value / error / rel are functions of the measurement's CURRENT magnitude and units: whatever was
+# read before, after an in-place conversion (ito, ito_base_units, ito_root_units, ito_reduced_units)
+# they report the converted numbers and units — the same as a fresh measurement converted out of
+# place along the same chain — and what they return is not a handle on the measurement's state
+# (converting the returned Quantity in place changes nothing).
+SEQ_UNITS = {"km": ["m", "inch", "mile", "km"], "m": ["cm", "km", "foot"], "s": ["ms", "hour", "minute"],
+             "km/hour": ["m/s", "mile/hour"], "m/s": ["km/hour", "inch/ms"], "degC": ["degF", "kelvin", "degR"],
+             "kelvin": ["degC", "degR"], "degF": ["degC", "kelvin"], "kg*m/s**2": ["g*cm/s**2", "lb*foot/minute**2"],
+             "m*km": ["m**2", "inch*mile"], "hour/s": ["minute/ms"], "": ["percent"]}
+
+
+def gen_history(rng, unit):
+    ops = []
+    cur = unit
+    for _ in range(rng.randint(2, 7)):
+        r = rng.random()
+        if r < 0.4:
+            ops.append(["read", rng.choice(["value", "error", "rel", "value+error", "all"])])
+        elif r < 0.7:
+            fam = SEQ_UNITS.get(cur) or SEQ_UNITS.get(unit) or [unit]
+            dst = rng.choice(fam)
+            ops.append(["ito", dst])
+            if dst in SEQ_UNITS or True:
+                cur = dst if dst in SEQ_UNITS else cur
+        elif r < 0.82:
+            ops.append([rng.choice(["ito_base_units", "ito_root_units", "ito_reduced_units"])])
+        elif r < 0.95:
+            ops.append(["mutate-returned", rng.choice(["value", "error"]), rng.choice(SEQ_UNITS.get(unit) or [unit])])
+        else:
+            ops.append(["ito", rng.choice(["s", "m", "kelvin"])])      # mostly a wrong dimension: refused, nothing changes
+    return ops
+
+
+def apply_history_op(w, m, op):
+    """one op on the object m (in place); returns ('ok', None) or ('err', class name)"""
+    try:
+        if op[0] == "read":
+            for what in {"value": ["value"], "error": ["error"], "rel": ["rel"], "value+error": ["value", "error"],
+                         "all": ["value", "error", "rel"]}[op[1]]:
+                try:
+                    getattr(m, what)
+                except ZeroDivisionError:
+                    pass
+        elif op[0] == "ito":
+            m.ito(op[1])
+        elif op[0] in ("ito_base_units", "ito_root_units", "ito_reduced_units"):
+            getattr(m, op[0])()
+        elif op[0] == "mutate-returned":
+            getattr(m, op[1]).ito(op[2])
+        return ("ok", None)
+    except Exception as e:
+        return ("err", type(e).__name__)
+
+
+def oracle_history(w, plan, collect=None):
+    """plan: {"v","s","unit","form","ops"}.  After every op: value / error / rel against the
+    object's own magnitude and units, and against a fresh measurement converted out of place."""
+    from uncertainties import ufloat
+    v, s_ = float(plan["v"]), float(plan["s"])
+    unit = plan["unit"]
+
+    def build():
+        if plan["form"] == "nums":
+            return w.M(v, s_, unit)
+        if plan["form"] == "pm":
+            return w.Q(v, unit).plus_minus(s_)
+        return w.M(ufloat(v, s_), unit)
+    m = build()
+    twin = build()        # never read, converted out of place (new objects) along the same chain
+    fails = []
+    done = []
+    for op in plan["ops"]:
+        res = apply_history_op(w, m, op)
+        done.append(op)
+        if op[0] == "ito":
+            try:
+                twin = twin.to(op[1])
+                tres = ("ok", None)
+            except Exception as e:
+                tres = ("err", type(e).__name__)
+            if tres != res:
+                fails.append((f"history:ito-outcome:{res[1] or 'ok'}", f"{plan['v']} ± {plan['s']} {unit!r} after {done}: ito {res}, out-of-place to() {tres}"))
+                break
+        elif op[0] in ("ito_base_units", "ito_root_units", "ito_reduced_units"):
+            twin = getattr(twin, op[0][1:])()
+        elif res[0] == "err" and op[0] == "mutate-returned":
+            continue        # converting the returned quantity to a wrong unit fails on the copy only
+        hist = "→".join(o[0] if o[0] != "read" else f"read({o[1]})" for o in done)
+        shape = ("mutate" if any(o[0] == "mutate-returned" for o in done) else "read-then-ito"
+                 if any(o[0] == "read" for o in done) and any(o[0].startswith("ito") for o in done) else "plain")
+        try:
+            val, err = m.value, m.error
+        except Exception as e:
+            fails.append((f"history:accessor-error:{type(e).__name__}", f"after {hist}: {e}"))
+            break
+        nomv, std = m.magnitude.nominal_value, m.magnitude.std_dev
+        tnv, tsd = twin.magnitude.nominal_value, twin.magnitude.std_dev
+        scale = abs(tnv) + abs(tsd) + (300.0 if any(k in str(twin.units) for k in ("degree", "kelvin")) else 0.0)
+        what = (f"M({plan['v']}, {plan['s']}, {unit!r}) [{plan['form']}] after {done}: value {val!r}, error {err!r}, "
+                f"while the measurement is {m!r} and a fresh measurement converted out of place is {twin!r}")
+        if ucd(val._units) != ucd(m._units) or ucd(err._units) != ucd(m._units):
+            fails.append((f"history:{shape}:stale-units", what))
+        elif val.magnitude != nomv or err.magnitude != std:
+            fails.append((f"history:{shape}:stale-numbers", what))
+        elif ucd(m._units) != ucd(twin._units) or abs(nomv - tnv) > 1e-9 * scale or abs(std - tsd) > 1e-9 * max(abs(tsd), 1e-300):
+            fails.append((f"history:{shape}:differs-from-out-of-place", what))
+        else:
+            try:
+                r1 = m.rel
+                r2 = abs(std / nomv)
+                if not math.isclose(r1, r2, rel_tol=1e-12):
+                    fails.append((f"history:{shape}:rel", f"{what}; rel {r1!r} but |error/value| = {r2!r}"))
+            except ZeroDivisionError:
+                pass
+        if collect is not None:
+            collect.append((list(done), m, val, err))
+        if fails:
+            break
+    return fails
+
+
 # ---------------------------------------------------------------------------- the run
 def run(ck):
     rng = random.Random(ck.seed)
@@ -1481,6 +1608,44 @@ def run(ck):
         ck.case(key=("ufloat-identity", vt, st, u))
         ck.count("ufloat-identity")
 
+    # histories on one measurement object: reads, in-place conversions, re-reads, mutated returned values
+    for _ in range(1500 if thorough else 320):
+        unit = rng.choice(sorted(SEQ_UNITS))
+        plan = {"kind": "history", "v": dec(rng.randint(1, 9999) * rng.choice([1, 1, -1]), rng.randint(-6, 6))[1],
+                "s": dec(rng.randint(1, 999), rng.randint(-8, 4))[1], "unit": unit,
+                "form": rng.choice(["nums", "pm", "ufloat"]), "ops": gen_history(rng, unit)}
+        col = []
+        try:
+            record(oracle_history(w, plan, col), plan)
+        except Exception as exn:
+            fails.append((f"history-oracle-error:{type(exn).__name__}", f"{plan}: {exn}", plan))
+        ck.case(key=("history", json.dumps(plan, sort_keys=True)))
+        ck.count("history")
+        # the same history through the model: what value / error report at the end
+        if col:
+            try:
+                done, mobj, val, err = col[-1]
+                # re-run to learn the units after every in-place conversion (ito_base_units etc. as explicit targets)
+                probe = w.M(float(plan["v"]), float(plan["s"]), plan["unit"])
+                terms = []
+                exact = exact_unit(w, plan["unit"])
+                for op in done:
+                    res_ = apply_history_op(w, probe, op)
+                    if op[0].startswith("ito"):
+                        if op[0] == "ito" and res_[0] == "err":
+                            terms.append(f"(OIto {coq_uc(ucd(w.ureg.Unit(op[1])._units))})")
+                        else:
+                            terms.append(f"(OIto {coq_uc(ucd(probe._units))})")
+                            exact = exact and exact_unit(w, probe.units)
+                    else:
+                        terms.append("ORead" if op[0] == "read" else "OMutateReturned")
+                if exact:
+                    add(f"KHist {coq_q(F(plan['v']))} {coq_q(F(plan['s']))} {coq_uc(ucd(w.ureg.Unit(plan['unit'] or 'dimensionless')._units))} "
+                        f"{coq_list(terms)} {coq_q(F(val.magnitude))} {coq_q(F(err.magnitude))} {coq_uc(ucd(val._units))}",
+                        plan, ("khist", json.dumps(plan, sort_keys=True)))
+            except Exception:
+                pass
+
     # bare (unit-less) operands, uncertain ones included, against dimensioned quantities: both operand orders
     bare_units = ["km", "m/s", "degC", "kelvin", "s", "", "percent", "kg*m**2"]
     bare_vals = [(0.0, None), (0.0, 0.0), (0.0, 0.3), (0.0, 1e-6), (0.0, 4.0e3), (2.5, None), (2.5, 0.1), (1e-300, 0.2),
@@ -1629,6 +1794,8 @@ def replay(ck, path):
         fl = oracle_derived(w, rp)
     elif k == "bare":
         fl = oracle_bare(w, rp)
+    elif k == "history":
+        fl = oracle_history(w, rp)
     elif k == "ufloat-identity":
         fl = oracle_ufloat_identity(w, rp)
     elif k == "format":
